@@ -698,7 +698,9 @@ func (i *interpreter) callSSA(caller *frame, callpos token.Pos, fn *ssa.Function
 		}
 		name := fn.String()
 		if ext := externals[name]; ext != nil {
-			return ext(fr, args)
+			if r := ext(fr, args); r != (useBody{}) {
+				return r
+			}
 		}
 		if fn.Signature.Recv() != nil && len(args) > 0 {
 			if nt, ok := args[0].(native); ok {
